@@ -1218,7 +1218,7 @@ func init() {
 		}
 		core.RunLeg(c, core.Leg[c16Case]{
 			Name: "K", Kind: "correspondence+oracle",
-			Rule: "random class expressions: 1-4 (1 in 6: 5-12) items among single runes, ranges, \\d\\w\\s\\D\\W\\S, \\p{..}/\\P{..} (44 names; not under ECMAScript), POSIX names (RE2 only), negated 1 in 4, nested subtraction 1 in 3 per level (depth ≤ 3), 1 in 12 an 'everything but a gap' pair of ranges, 1 in 10 a category together with its negation (the base collapses to 'anything') usually with a subtraction; options drawn from {default×2, IgnoreCase, ECMAScript, ECMAScript+IgnoreCase, RE2, RE2+IgnoreCase} (IgnoreCase: ASCII range endpoints; rune domain = ASCII ∪ plain upper/lower pairs ∪ caseless runes), ASCII bitmap disabled 1 in 3. Domain per class: U+0000-024F, every endpoint ±1 (AST and compiled set), 130 special runes, 400 random; every 400th (thorough: 150th) class all 1 114 112 code points. Non-trivial = more than one item, negated, or has a subtraction; distinct by (options, bitmap, class text). Oracle: CharIn, charInSlow, MatchRunes of ^[…]$, x*[…], ^[…]+$ (doubled rune) per rune, and bulk ^[…]+$ over all members / unanchored […] over all non-members, against set algebra recomputed from the AST (package unicode tables, stdlib regexp for POSIX names and RE2 shorthands; case equivalence = SimpleFold orbit for code-point items). Correspondence: Lean memAlg/charInSlow/charIn∘prepare on the dumped CharSet vs Go CharIn (sample: ASCII, endpoints ±2, special, 60 random); Lean build(items) vs parsed structure per nesting level (no IgnoreCase); Lean buildItems→addLowercase(lcTable from the source, ToLower rows)→Copy→addCaseEquivalences vs the IgnoreCase parse (classes whose ranges cover at most 3000 runes)",
+			Rule:   "random class expressions: 1-4 (1 in 6: 5-12) items among single runes, ranges, \\d\\w\\s\\D\\W\\S, \\p{..}/\\P{..} (44 names; not under ECMAScript), POSIX names (RE2 only), negated 1 in 4, nested subtraction 1 in 3 per level (depth ≤ 3), 1 in 12 an 'everything but a gap' pair of ranges, 1 in 10 a category together with its negation (the base collapses to 'anything') usually with a subtraction; options drawn from {default×2, IgnoreCase, ECMAScript, ECMAScript+IgnoreCase, RE2, RE2+IgnoreCase} (IgnoreCase: ASCII range endpoints; rune domain = ASCII ∪ plain upper/lower pairs ∪ caseless runes), ASCII bitmap disabled 1 in 3. Domain per class: U+0000-024F, every endpoint ±1 (AST and compiled set), 130 special runes, 400 random; every 400th (thorough: 150th) class all 1 114 112 code points. Non-trivial = more than one item, negated, or has a subtraction; distinct by (options, bitmap, class text). Oracle: CharIn, charInSlow, MatchRunes of ^[…]$, x*[…], ^[…]+$ (doubled rune) per rune, and bulk ^[…]+$ over all members / unanchored […] over all non-members, against set algebra recomputed from the AST (package unicode tables, stdlib regexp for POSIX names and RE2 shorthands; case equivalence = SimpleFold orbit for code-point items). Correspondence: Lean memAlg/charInSlow/charIn∘prepare on the dumped CharSet vs Go CharIn (sample: ASCII, endpoints ±2, special, 60 random); Lean build(items) vs parsed structure per nesting level (no IgnoreCase); Lean buildItems→addLowercase(lcTable from the source, ToLower rows)→Copy→addCaseEquivalences vs the IgnoreCase parse (classes whose ranges cover at most 3000 runes)",
 			Corpus: corpus, N: c.N(1500, 30000), Gen: c16Gen(c), Check: c16Check, Batch: 250,
 		})
 	})
